@@ -12,7 +12,10 @@ MIN_CASES = {"quick": 2000, "thorough": 20000}
 RULE = ("Hypothesis draws a C01-style operator tree (complex payloads and complex Hermitian leaves declared SelfAdjoint/PSD "
         "emphasised), a tower w in {T,H}^(1..3) applied through the public .T/.H properties, and left operands (1-D, 2-D). "
         "Oracle: the same transposes/conjugations and left products on the NumPy reference matrix. Non-trivial: complex "
-        "payload, or a tree containing a kind whose transpose is not the Dense rule. distinct = distinct case hashes.")
+        "payload, or a tree containing a kind whose transpose is not the Dense rule. distinct = distinct case hashes. The "
+        "annotated emphasis also draws structured operators with true declarations on leaves and composites (Kronecker, "
+        "BlockDiag, Tridiagonal, sums; Hermitian / PD / unitary by construction) under T / H / product / sum / slices whose two "
+        "index arrays hold the same positions in equal or different order.")
 ASSUMPTIONS = [
     "NumPy backend with harness shim; the generic x @ A of kinds without _rmatmat runs through the shim's linear_transpose",
     "A.T.T / A.H.H are compared by value, not by object identity",
@@ -29,8 +32,11 @@ def configure(tier, opts):
 @st.composite
 def cases(draw, tier):
     emph = draw(st.sampled_from(["any", "any", "complex", "ann"]))
-    g = gen.TreeGen(draw, avoid=AVOID, dtypes=gen.CPLX if emph == "complex" else gen.ALLDT)
-    if emph == "ann":
+    g = gen.TraitGen(draw, avoid=AVOID, dtypes=gen.CPLX if emph == "complex" else gen.ALLDT)
+    if emph == "ann" and g.boolean():
+        # structured operators carrying true declarations (leaves and composites), alone or under one combinator
+        tree = g.annotated(g.integer(1, 6), g.pick([0, 1, 1, 2]))
+    elif emph == "ann":
         n = g.integer(1, 6)
         tree = g.k_ann(n, n, 0)
         if g.boolean():
